@@ -49,6 +49,13 @@ def g_any(rng, tier):
         return gen.gen_cf_case(rng, max_ops=8, warm=True)
     return gen.gen_ctx_case(rng, max_ops=6, warm=True)
 
+def g_c20(rng, tier):
+    """as g_any; a fifth of the cases with an arm list that mixes int, str and float labels (fix D23)"""
+    c = g_any(rng, tier)
+    if rng.random() < 0.2:
+        c["label"] = "mixed"
+    return c
+
 def g_c04(rng, tier):
     return REL.gen_c04(rng, tier, lints_nbhd=False)
 
@@ -294,9 +301,9 @@ PROPS = {
                     "duplicate / None / NaN / Inf / unknown arms, four bad warm_start arguments, too few rows for k-means, wrong container types, predict without contexts, 1-D contexts) "
                     "placed at a random position of a random valid history of any policy combination, followed by the rest of the history plus partial_fit and queries on the bandit "
                     "and on a deep copy taken before the call; non-trivial = the call was rejected"},
-    "C20": {"gen": g_any, "fields": ("out", "arms"), "functional": False, "n": (150, 2000),
+    "C20": {"gen": g_c20, "fields": ("out", "arms"), "functional": False, "n": (150, 2000),
             "relations": [("relabel_permute_shift_scale", REL.gen_c20, REL.run_c20, (300, 6000))],
-            "rule": "relabelling int->str/float/negative int on every policy combination; random row permutations of each training batch (context-free, linear, Radius, LSH); "
+            "rule": "relabelling int->str/float/negative int/mixed-type arm lists on every policy combination; random row permutations of each training batch (context-free, linear, Radius, LSH); "
                     "dyadic reward shifts (greedy/UCB1/Softmax) and scalings (LinGreedy); non-trivial = >= 1 compared output"},
     "C10": {"gen": g_any, "fields": ("out", "arms", "cold", "cfexp", "stats", "status", "nhist", "lsh", "leaves"), "functional": False, "n": (150, 2000),
             "relations": [("queried_vs_unqueried", REL.gen_c10, REL.run_c10, (200, 4000))],
